@@ -14,6 +14,7 @@ type Ctx struct {
 	eff  *Effects
 	memo map[string]*RuleResult
 	gcs  map[*ssa.Function]*GCNF
+	ctl  *Ctx // positive-control program
 }
 
 func newCtx(p *Prog, opts options) *Ctx {
